@@ -37,6 +37,8 @@ func (h *Hist) genConfigs() {
 		name := fmt.Sprintf("g%d", i)
 		if useDefault && i == ng-1 {
 			name = "default"
+		} else if i == 1 && r.chance(10) {
+			name = r.pick("G0", "g0 ", " g0", "Default", "g0.") // distinct names that a careless normalisation would merge
 		}
 		lower := r.rng(5, 40)
 		upper := r.rng(lower+1, 75)
@@ -189,7 +191,7 @@ func (h *Hist) addNode(gi int, cpu, mem int64, ago int64, member bool) *WNode {
 	id := fmt.Sprintf("i-%05d", h.instSeq)
 	az := h.r.pick("az-a", "az-b")
 	name := fmt.Sprintf("n%d", h.nodeSeq)
-	if len(h.goneNames) > 0 && h.r.chance(20) {
+	if len(h.goneNames) > 0 && h.r.chance(50) {
 		// the cloud hands the private address of a departed instance out again: a new node under an old name
 		k := h.r.intn(len(h.goneNames))
 		name = h.goneNames[k]
